@@ -280,7 +280,7 @@ def run(ctx):
     jobs = jobs_for(ctx.tier)
     items = []
     for j in jobs:
-        deep = (not ctx.quick) or (j["name"] == "chain-4agents-k1" and j["removed"] == ["a1"])
+        deep = (not ctx.quick) or (j["name"] == "chain-4agents-k1" and j["removed"] == ["a1"]) or (j["name"] == "star-4agents-k1-2events" and j["removed"] == ["a1", "a0"])
         if deep:
             n = 16 if ctx.quick else 32
             items.extend((j, "window", s, n) for s in range(n))
@@ -288,18 +288,20 @@ def run(ctx):
             items.append((j, "default", 0, 1))
     ctx.rule = (
         "fault enumeration on the REAL resilient runtime (thread mode, replication dist_ucs_hostingcosts, A-DSA period 0.5 (thorough also MGM "
-        "stop_cycle=0), scenario with one removal event) under the cooperative scheduler: for every deployment (chain / star DCOP of 4 variables, "
-        "4 (thorough also 5) agents with ample capacity, k in {1,2}) EVERY subset of <= k agents is removed; each case runs the fair default "
-        "schedule; for the deep cases (quick: chain k=1 removing a1; thorough: all) additionally every single schedule deviation inside the "
-        "window [event injection, repair completion] and every single deviation of the random answers drawn inside that window. Oracle one "
-        "virtual second after the orchestrator's repair completion: every original computation is in the directory on exactly one surviving "
+        "stop_cycle=0), scenario with one or two removal events) under the cooperative scheduler: for every deployment (chain / star DCOP of 4 variables, "
+        "4 (thorough also 5) agents with ample capacity, k in {1,2}) EVERY subset of <= k agents is removed in one event; for the k=1 deployments "
+        "also TWO successive events of one agent each (quick: a1 then every survivor; thorough: every ordered pair), 3 virtual seconds apart; "
+        "each case runs the fair default schedule; for the deep cases (quick: chain k=1 removing a1, star k=1 removing a1 then the hub a0; "
+        "thorough: all) additionally every single schedule deviation inside the "
+        "window [first event injection, last repair completion] and every single deviation of the random answers drawn inside that window. Oracle one "
+        "virtual second after the orchestrator's last repair completion: every original computation is in the directory on exactly one surviving "
         "agent, exactly that agent's computations() contains it, a re-hosted computation's host held its replica before the event, and the "
         "repair is not reported OK otherwise. evaluations = executions; non-trivial = distinct (deployment, removed set, deviation)"
     )
     ctx.assumptions = [
         "Scheduling points at synchronisation operations only; virtual time; in-process transport.",
         "Algorithm / replication / repair random draws are explorer-owned (default answer 0 + single deviations), not sampled.",
-        "One removal event per run; agents with ample capacity (1000); the solving algorithm does not terminate by itself.",
+        "At most two removal events per run (each within k); agents with ample capacity (1000); the solving algorithm does not terminate by itself.",
     ]
     ctx.pmap(run_one, items)
 
